@@ -5,7 +5,7 @@ const { hash } = require('../lib/canon');
 const { product, sequences } = require('../lib/spaces');
 
 // ---- (b) reference graphs of types on ≤3 names
-const { SYM } = require('../lib/tsyms');
+const { SYM, SYM_X } = require('../lib/tsyms');
 const HS = require('../lib/hspace');
 const HG = require('../lib/hgen');
 const NAMES = ['A', 'B', 'C'];
@@ -73,13 +73,31 @@ const X_SHAPES = {
   nested: (t) => `const a = <div><${t}>{x}</${t}><${t} /></div>;`,
   slotIdent: (t) => `const a = <Comp><${t}>{x}</${t}></Comp>;`,
 };
+// ---- (y) cross-request: two *different* modules one after the other in one process (nothing of the first may survive)
+const Y_MODS = {
+  tsAliasString: { ts: true, o: { resolveType: true }, src: "import { defineComponent } from 'vue';\ntype P = { a: string };\ntype K = 'a';\nexport const C = defineComponent((props: P) => () => null);" },
+  tsAliasNumber: { ts: true, o: { resolveType: true }, src: "import { defineComponent } from 'vue';\ntype P = { b?: number; c: P['b'] };\ninterface K { k: boolean }\nexport const C = defineComponent((props: P & K) => () => null);" },
+  tsCircular: { ts: true, o: { resolveType: true }, src: "import { defineComponent } from 'vue';\ntype P = Q; type Q = P;\nexport const C = defineComponent((props: { p: P }) => () => null);" },
+  tsNoImport: { ts: true, o: { resolveType: true }, src: "function defineComponent(a: any) { return a; }\ntype P = { z: string };\nexport const C = defineComponent((props: P) => () => null);" },
+  pragmaComment: { o: {}, src: '/* @jsx h */\nconst a = <div><b/></div>;' },
+  noPragma: { o: {}, src: 'const a = <div><b/></div>;' },
+  fragAlias: { o: {}, src: "import { Fragment as F } from 'vue';\nconst a = <F>{x}</F>;" },
+  fragAliasIsComp: { o: {}, src: 'const F = Comp;\nconst a = <F>{x}</F>;' },
+  slotTemps: { o: { optimize: true }, src: 'const a = <Comp>{f()}</Comp>;\nconst b = <Comp>{g()}</Comp>;' },
+  slotTempsOne: { o: { optimize: true }, src: 'const b = <Comp>{g()}</Comp>;\nlet q = 1;\nq = <Comp>{q}</Comp>;' },
+  typeCheckbox: { o: {}, src: 'const a = <input type="checkbox" />;' },
+  modelNoType: { o: {}, src: 'let v;\nconst a = <input v-model={v} />;' },
+  transformOnA: { o: { transformOn: true }, src: 'const a = <div on={{ click: h }} />;' },
+  transformOnB: { o: { transformOn: true, mergeProps: false }, src: 'const a = <div id="a" on={{ click: h }} {...s} />;' },
+};
 function xSrc(c) { return `const { x, s, h, Comp } = __env.bound;\n${X_SHAPES[c.shape](`x-t${c.i}`)}\n`; }
 
 function requests(c) {
+  if (c.sp === 'Y') return [c.a, c.b].map((k) => ({ src: Y_MODS[k].src + '\n', ts: !!Y_MODS[k].ts, opts: JSON.stringify(Y_MODS[k].o) }));
   if (c.sp === 'X') return [{ src: xSrc(c), opts: JSON.stringify(X_OPTS[c.first]) }, { src: xSrc(c), opts: JSON.stringify(X_OPTS[c.second]) }];
   let base;
   if (c.sp === 'G') base = { src: G.render(c), ts: !!c.ts, opts: JSON.stringify(c.o || {}) };
-  else if (c.sp === 'S') { const t = c.s.map((i) => SYM[i][1]).join(''); base = { src: `const { x, y, Comp } = __env.bound;\nconst a = <div>${t}</div>;\nconst b = <div>{x}${t}{y}</div>;\nconst d = <Comp>${t}<i/></Comp>;\n${c.s.some((i) => SYM[i][0] === 'DQ') ? '' : `const e = <p title="${t}" v-foo="${t}" />;\n`}`, opts: '{}' }; }
+  else if (c.sp === 'S') { const t = c.s.map((i) => (c.x ? SYM_X : SYM)[i][1]).join(''); base = { src: `const { x, y, Comp } = __env.bound;\nconst a = <div>${t}</div>;\nconst b = <div>{x}${t}{y}</div>;\nconst d = <Comp>${t}<i/></Comp>;\n${!c.x && c.s.some((i) => SYM[i][0] === 'DQ') ? '' : `const e = <p title="${t}" v-foo="${t}" />;\n`}`, opts: '{}' }; }
   else if (c.sp === 'H') base = { src: HS.renderHistory(c.items, !!c.ts), ts: !!c.ts, opts: JSON.stringify(c.ts ? { resolveType: true, optimize: !!c.opt } : { optimize: !!c.opt }) };
   else if (c.sp === 'T') base = { src: graphSrc(c.g, c.use), ts: true, opts: JSON.stringify({ resolveType: true }) };
   else base = { src: nestSrc(c.kind, c.depth), opts: JSON.stringify({ optimize: true }) };
@@ -93,7 +111,7 @@ function detOf(r) {
 }
 
 function judge(c, resps) {
-  if (c.sp === 'X') {
+  if (c.sp === 'X' || c.sp === 'Y') {
     // result of the *second* request (after another option set was used on the same source in this process);
     // the engine's second pass re-runs that request first in a fresh process and compares
     const v = [];
@@ -142,7 +160,7 @@ function spaces(tier) {
     {
       name: 'S:text-strings',
       bounds: { alphabet: SYM.map((s) => s[0]), max_length: thorough ? 5 : 4, placements: ['only child', 'between containers', 'first child of a component', 'attribute string and directive string (strings without a double quote)'] },
-      *gen() { for (const s of sequences(SYM.length, thorough ? 5 : 4)) yield { sp: 'S', s }; },
+      *gen() { for (const s of sequences(SYM.length, thorough ? 5 : 4)) yield { sp: 'S', s }; for (const s of sequences(SYM_X.length, thorough ? 4 : 3)) yield { sp: 'S', s, x: true }; },
     },
     {
       name: 'H:statement-forms',
@@ -159,12 +177,14 @@ function spaces(tier) {
       bounds: { option_sets: Object.keys(X_OPTS), shapes: Object.keys(X_SHAPES), note: 'request A then request B (same source, different options) in one process; B is re-run first in a fresh process (second pass) and must give the same bytes; every case uses its own tag name' },
       *gen() { let i = 0; for (const shape of Object.keys(X_SHAPES)) for (const first of Object.keys(X_OPTS)) for (const second of Object.keys(X_OPTS)) if (first !== second) yield { sp: 'X', i: i++, shape, first, second }; },
     },
+    { name: 'Y:cross-request-modules', bounds: { modules: Object.keys(Y_MODS), note: 'every ordered pair of different modules in one process; the second one is re-run first in a fresh process (second pass) and must give the same bytes' }, *gen() { for (const a of Object.keys(Y_MODS)) for (const b of Object.keys(Y_MODS)) if (a !== b) yield { sp: 'Y', a, b }; } },
     { name: 'N:nesting-depth', bounds: { kinds: ['direct', 'container', 'component', 'attr'], depths: DEPTHS, stack: '8 MiB' }, *gen() { for (const kind of ['direct', 'container', 'component', 'attr']) for (const depth of DEPTHS) yield { sp: 'N', kind, depth }; } },
   ];
 }
 
 function* shrink(c) {
-  if (c.sp === 'S') { for (let i = 0; i < c.s.length; i++) yield { sp: 'S', s: c.s.slice(0, i).concat(c.s.slice(i + 1)) }; return; }
+  if (c.sp === 'Y') return;
+  if (c.sp === 'S') { for (let i = 0; i < c.s.length; i++) yield { sp: 'S', s: c.s.slice(0, i).concat(c.s.slice(i + 1)), x: c.x }; return; }
   if (c.sp === 'H') { if (c.items.length > 1) for (let i = 0; i < c.items.length; i++) yield Object.assign({}, c, { items: c.items.slice(0, i).concat(c.items.slice(i + 1)) }); if (c.opt) yield Object.assign({}, c, { opt: false }); return; }
   if (c.sp === 'X') { if (c.shape !== 'hostChild') yield Object.assign({}, c, { shape: 'hostChild' }); return; }
   if (c.sp === 'G') { for (const x of G.shrink(c)) yield Object.assign({ sp: 'G', expectDiag: gExpectDiag(x) }, x); return; }
@@ -183,8 +203,8 @@ module.exports = {
   rule: 'exhaustive enumeration of (G) the unusual-JSX grammar with every directive taking every attribute-value kind, (T) every reference graph of type declarations on ≤3 names over the definition menu (alias, union, intersection, indexed access, Pick/Omit/Partial, array/tuple, interface extends/member, function type) - cyclic graphs included - used as props annotation, SetupContext<E> annotation and as the type of one prop, (N) element nesting depths up to 256 in four nesting styles; each case is run through the real visitor four times in one process (twice plain, host mark offsets 1 and 7) and once more in a fresh process in reversed order: no panic, no process death, answer within the time cap, byte-identical (printed output, diagnostics) in all runs; malformed directive usage must produce an error diagnostic. Distinct = distinct result hashes.',
   assumptions: ['catch_unwind + process exit status + 5 s wall cap decide "returns"', '"does not loop" is decided as "answers within the cap"', 'nesting beyond 256 is not explored'],
   secondPass: true, detOf,
-  secondPassRequest: (c) => (c.sp === 'X' ? requests(c)[1] : requests(c)[0]),
+  secondPassRequest: (c) => (c.sp === 'X' || c.sp === 'Y' ? requests(c)[1] : requests(c)[0]),
   spaces, requests, judge, shrink,
-  caseKey: (c) => (c.sp === 'S' ? 'S:' + c.s.map((i) => SYM[i][0]).join('.') : c.sp === 'H' ? 'H:' + HG.key(c.items) + (c.ts ? ' {tsx resolveType}' : '') + (c.opt ? ' {optimize}' : '') : c.sp === 'X' ? `X:${c.shape}: ${c.first} then ${c.second}` : c.sp === 'G' ? G.key(c) : c.sp === 'N' ? `N:${c.kind}×${c.depth}` : `T:${c.use}: ${graphKey(c.g)}`),
-  depth: (c) => (c.sp === 'S' ? c.s.length : c.sp === 'H' ? c.items.length : c.sp === 'X' ? 1 : c.sp === 'G' ? c.attrs.length + (c.ch !== 'none') : c.sp === 'N' ? DEPTHS.indexOf(c.depth) : c.g.filter((d) => d.k !== 'lit' && d.k !== 'lits').length),
+  caseKey: (c) => (c.sp === 'Y' ? `Y:${c.a} then ${c.b}` : c.sp === 'S' ? (c.x ? 'SX:' : 'S:') + c.s.map((i) => (c.x ? SYM_X : SYM)[i][0]).join('.') : c.sp === 'H' ? 'H:' + HG.key(c.items) + (c.ts ? ' {tsx resolveType}' : '') + (c.opt ? ' {optimize}' : '') : c.sp === 'X' ? `X:${c.shape}: ${c.first} then ${c.second}` : c.sp === 'G' ? G.key(c) : c.sp === 'N' ? `N:${c.kind}×${c.depth}` : `T:${c.use}: ${graphKey(c.g)}`),
+  depth: (c) => (c.sp === 'Y' ? 1 : c.sp === 'S' ? c.s.length : c.sp === 'H' ? c.items.length : c.sp === 'X' ? 1 : c.sp === 'G' ? c.attrs.length + (c.ch !== 'none') : c.sp === 'N' ? DEPTHS.indexOf(c.depth) : c.g.filter((d) => d.k !== 'lit' && d.k !== 'lits').length),
 };
